@@ -29,7 +29,7 @@ SPEC = {
                    "PyMatterSim.utils.coarse_graining:gaussian_blurring", "PyMatterSim.static.vector:vector_decomposition_sq"],
     "floors_thorough": {"purity_repo_tests": 200},
     "floors": {"purity": 20000, "repeat": 300, "files": 400, "instance_reuse": 30, "instance_history": 30, "fresh_process_replay": 40,
-               "updated_in_place": 100, "layout_invariance": 80},
+               "updated_in_place": 100, "layout_invariance": 80, "held_results": 500},
     "insitu": (),
     "rule": ("random programs (12-20 steps, a third of them repeats of an earlier step) over ~60 public entry points of static / "
              "dynamic / neighbors / utils on one shared pool: 2-D and 3-D wrapped + unwrapped trajectories (3-4 frames, 16-30 "
@@ -1234,6 +1234,7 @@ def program(ctx, rng, wd, R, pno, fresh_replay=False):
     for n_ in notes:
         ctx.note(n_)
     results = {}
+    held = []
     for k, (kind, item) in enumerate(prog):
         out = os.path.join(sd, f"o{k}")
         os.makedirs(out, exist_ok=True)
@@ -1252,6 +1253,7 @@ def program(ctx, rng, wd, R, pno, fresh_replay=False):
                  sample={"step": step["name"], "parameters": step["par"], "program": pno, "position": k})
         if ok:
             results[k] = res
+            held.append((step, res, digest(res)))       # what the caller now holds: must still be this when the program is over
         u = np.random.default_rng(key + [k, 4242]).random()
         if ok and 0.3 <= u < 0.5:
             layout_invariance_monitor(ctx, S, step, sd, k, res)
@@ -1282,6 +1284,11 @@ def program(ctx, rng, wd, R, pno, fresh_replay=False):
                                   f"than on a fresh object: {describe_diff(res, r3)}", {"step": step["name"], "par": step["par"], "before": step["before"]})
             except Exception as e:  # noqa: BLE001
                 ctx.violation(f"{step['name']}/instance_reuse/raises:{type(e).__name__}", f"{type(e).__name__}: {e}", {"par": step["par"]}, "exceptions")
+    # results held by the caller while later calls were made: a routine that hands out a scratch buffer it re-uses is right when it
+    # returns and wrong one call later
+    for step, res, dg in held:
+        ctx.check("held_results", digest(res) == dg, f"{step['name']}/result_changed_later",
+                  f"{step['name']} {step['par']}: the object returned to the caller was changed by a later call", {"step": step["name"], "par": step["par"]})
     drop_dir(sd)
     if fresh_replay:
         # history independence: the same steps, executed in REVERSE order by a fresh interpreter (no earlier call in its history),
